@@ -1,19 +1,26 @@
-// C10 correspondence harness (uses harness/ceq_tree.h, CEQ_TREE_VERSION 5).
+// C10 correspondence harness (uses harness/ceq_tree.h, CEQ_TREE_VERSION 6).
 // "Prescribed motion and locks are honoured exactly."
 //
 // Every I record starts with `<seed> <case#>` so a single record replays its whole case (`--mode replay`).
 //
 // Per case k (all random choices from vh::Rng streams derived from (seed,k)):
-//   system A : random tree (ceq::buildTree, full mobilizer palette, Euler/quaternion), gravity + mobility dampers +
-//              a Force::Custom that applies an externally supplied mobility-force vector, 0-2 random constraints
-//              (ceq::addConstraint), a random subset of mobilizers carrying Motion::Steady / Motion::Sinusoid(level) /
-//              a Motion::Custom (polynomial in t; Prescribed, Zero or Discrete) / lockByDefault; then on the State:
+//   system A : random tree (ceq::buildTree, full v6 palette incl. reversed mobilizers, BendStretch, SphericalCoords,
+//              LineOrientation, FreeLine, FunctionBased; Euler/quaternion), in 1/3 of the cases plus a guaranteed
+//              RBNodeLoneParticle body (forward Translation on Ground, identity frames, no children); gravity + mobility
+//              dampers + a Force::Custom that applies an externally supplied mobility-force vector, 0-2 random
+//              constraints (ceq::addConstraint), a random subset of mobilizers carrying Motion::Steady /
+//              Motion::Sinusoid(level) / a Motion::Custom (polynomial in t, or a unit-quaternion spin for position-level
+//              motion of quaternion mobilizers; Prescribed, Zero, Discrete, Fast) / lockByDefault; then on the State:
 //              lock(level), lockAt(values, level) (contiguous or STRIDED Vector, or the scalar signature), unlock,
 //              Motion::disable/enable, Steady::setOneRate.
 //   system B : the same tree/forces/constraints built again from the same streams WITHOUT any Motion or lock.
 // Records:
-//   I chk      implementation-only predicates (P lines, see below)
-//   I presc    instance partition + pools + prescribeQ/prescribeU scatter     (model: C10.partition / C10.prescribe)
+//   I chk      implementation-only predicates (P lines, see below); evaluated at time t and again at a second instant t2
+//   I presc    instance partition + pools (callback -> pool choice, u = N^-1 qdot done by the MODEL from the exported N^-1
+//              block) + prescribeQ/prescribeU scatter + known udot                 (model: C10.partition / C10.prescribe)
+//   I aba      the two ABA passes with prescribed nodes on exported tree data (getHCol, getBodySpatialInertiaInGround,
+//              origins, Coriolis/gyroscopic terms, total applied forces) vs getUDot AND getMotionMultipliers
+//                                                                          (model: TreeDyn.forwardDynamics, presc branch)
 //   I elim     dense block elimination on calcM / calcResidualForce           (model: C10.elim, unpackTau, motionPower)
 //   I sin      Motion::Sinusoid at the three levels on Pin mobilizers          (model: C10.Sinusoid.*)
 //   I steady   Motion::Steady (+ setOneRate)                                   (model: C10.Steady.*)
@@ -24,12 +31,17 @@
 //   realize.*.udot_exact               known udot slots hold exactly the prescribed value after realize(Acceleration)
 //   realize.*.qdot_matches / qdotdot_matches   position-level Motions: qdot, qdotdot equal the Motion's derivatives
 //   motionErrors.*.zero                calcMotionErrors(Position|Velocity|Acceleration) == 0
+//   multipliers.*.eom_residual         M udot + tau + ~G lambda + f_inertial - f_applied == 0 (inverse dynamics of the
+//                                      result with the reported tau; evaluated for EVERY case, also degenerate ones)
 //   multipliers.*.as_applied_force     disable all motions, unlock all, apply -tau as ordinary mobility forces: same udot
 //   unlock.*.restores_free             disabled/unlocked system A has the udot of system B that never had a prescription
 //   lockAt.<vecclass>.value_honoured   lockAt(state, value, level): getLockValueAsVector == value (exact)
+//   lock.<kind>.value_recorded         lock(state, level) / lockByDefault: getLockValueAsVector == current q / u / 0 resp.
+//                                      default q / 0 (exact)
 #include "ceq_tree.h"
 #include <map>
 #include <memory>
+static_assert(CEQ_TREE_VERSION == 6, "bump the version comment here when ceq_tree.h changes");
 using namespace SimTK;
 using namespace ceq;
 using vh::hex;
@@ -49,19 +61,39 @@ static double relVecErr(const Vector& a, const Vector& b) {
     if (std::isnan(sc) || std::isnan(e)) return NAN;
     return e / sc;
 }
+static double exactVecErr(const Vector& got, const Vector& want) {
+    if (got.size() != want.size()) return NAN;
+    double e = 0;
+    for (int j = 0; j < got.size() && !std::isnan(e); ++j) upd(e, bitEq(got[j], want[j]) ? 0.0 : std::max(absErr(got[j], want[j]), 1e-300));
+    return e;
+}
 
 // ---------------------------------------------------------------------------------------------- custom motion / force
-// q_i(t) (or u_i(t), udot_i(t)) = c0_i + c1_i t + c2_i t^2/2 with exact derivatives
+// q_i(t) (or u_i(t), udot_i(t)) = c0_i + c1_i t + c2_i t^2/2 with exact derivatives.
+// quat == true (position level on a quaternion mobilizer): the first four coordinates are the unit quaternion
+// (cos h, axis sin h), h = (qw t + qp)/2, whose derivative is tangent to the unit sphere; the rest polynomial.
 class PolyMotion : public Motion::Custom::Implementation {
 public:
     Motion::Level level; Motion::Method method; double c0[8], c1[8], c2[8];
+    bool quat = false; double ax[3] = {0, 0, 1}, qw = 0, qp = 0;
     PolyMotion(vh::Rng& g, Motion::Level l, Motion::Method m) : level(l), method(m) {
         // |value| <= 0.3 + 0.2*2 + 0.2*2 = 1.1 for t in [0,2]: position-level Euler angles stay away from the singularity
         for (int i = 0; i < 8; ++i) { c0[i] = g.range(-0.3, 0.3); c1[i] = g.range(-0.2, 0.2); c2[i] = g.range(-0.2, 0.2); }
+        UnitVec3 a = runit(g); for (int i = 0; i < 3; ++i) ax[i] = a[i];
+        qw = g.signedMag(0.3, 2.0); qp = g.range(-2.0, 2.0);
     }
-    double f(int i, double t) const { return c0[i] + c1[i] * t + c2[i] * t * t / 2; }
-    double df(int i, double t) const { return c1[i] + c2[i] * t; }
-    double ddf(int i, double) const { return c2[i]; }
+    double f(int i, double t) const {
+        if (quat && i < 4) { const double h = (qw * t + qp) / 2; return i == 0 ? std::cos(h) : ax[i - 1] * std::sin(h); }
+        return c0[i] + c1[i] * t + c2[i] * t * t / 2;
+    }
+    double df(int i, double t) const {
+        if (quat && i < 4) { const double h = (qw * t + qp) / 2; return i == 0 ? -std::sin(h) * (qw / 2) : ax[i - 1] * std::cos(h) * (qw / 2); }
+        return c1[i] + c2[i] * t;
+    }
+    double ddf(int i, double t) const {
+        if (quat && i < 4) { const double h = (qw * t + qp) / 2; return i == 0 ? -std::cos(h) * (qw / 2) * (qw / 2) : -ax[i - 1] * std::sin(h) * (qw / 2) * (qw / 2); }
+        return c2[i];
+    }
     Implementation* clone() const override { return new PolyMotion(*this); }
     Motion::Level getLevel(const State&) const override { return level; }
     Motion::Method getLevelMethod(const State&) const override { return method; }
@@ -97,7 +129,7 @@ struct Plan {
     // state-level operations
     int stateLock = 0;                   // 0 none, 1 lock(level), 2 lockAt(values, level), 3 unlock
     Motion::Level stateLockLevel = Motion::Position;
-    int lockAtVec = 0;                   // 0 contiguous Vector, 1 strided Vector view, 2 scalar signature (nq/nu == 1)
+    int lockAtVec = 0;                   // 0 contiguous Vector, 1 strided Vector view
     bool zeroLockValues = false;         // lockAt with all-zero values (exercises the Motion::Zero branch)
     int toggle = 0;                      // 0 none, 1 disable, 2 enable
     int setOne = -1; double setOneVal = 0;
@@ -105,8 +137,10 @@ struct Plan {
 };
 
 static bool quatCapable(int t) { return t == mBall || t == mFree || t == mEllipsoid; }
-static bool identityN(int t) { return t == mPin || t == mSlider || t == mUniversal || t == mCylinder || t == mPlanar || t == mTranslation || t == mScrew; }
+static bool lineType(int t) { return t == mLineOrientation || t == mFreeLine; }            // nq != nu even with Euler angles
+static bool singularAtZero(int t) { return t == mBendStretch || t == mSphericalCoords; }    // q = 0 is a singular configuration
 static const char* levelName(Motion::Level l) { return l == Motion::Position ? "pos" : l == Motion::Velocity ? "vel" : l == Motion::Acceleration ? "acc" : "none"; }
+static const char* methodName(Motion::Method m) { return m == Motion::Prescribed ? "prescribed" : m == Motion::Zero ? "zero" : m == Motion::Discrete ? "discrete" : m == Motion::Fast ? "fast" : "other"; }
 static Motion::Level randLevel(vh::Rng& g) { int r = g.below(3); return r == 0 ? Motion::Acceleration : r == 1 ? Motion::Velocity : Motion::Position; }
 
 struct Sys {
@@ -115,15 +149,24 @@ struct Sys {
     std::vector<ConsInfo> cons;
     std::vector<Plan> plan;   // index = body index (0 = Ground unused)
     bool euler = false;
+    int loneParticle = -1;    // body index of the guaranteed RBNodeLoneParticle body, if any
+    Vector defaultQ;          // q right after realizeModel (what lockByDefault(Position) records)
 };
 
 // Build tree/forces/constraints from streams derived from `base`; attach Motions / default locks iff withPrescription.
 static void buildSys(Sys& S, uint64_t base, bool withPrescription, int& nConsWanted) {
     vh::Rng gt(base + 11), gf(base + 23), gc(base + 37), gp(base + 41), go(base + 53);
     Model& M = S.M;
-    S.euler = go.below(3) == 0;
     const int nBodies = 1 + gt.below(6);
     buildTree(M, gt, nBodies, fullPalette());
+    // guaranteed share of RBNodeLoneParticle: forward Translation on Ground, identity frames, never a parent
+    if (go.below(3) == 0) {
+        MobilizedBody::Translation lp(M.matter.Ground(), Transform(), rbody(gt), Transform());
+        M.bodies.push_back(lp); M.parent.push_back(0); M.mtype.push_back(mTranslation); M.reversed.push_back(false);
+        S.loneParticle = M.nb() - 1;
+    }
+    // LineOrientation / FreeLine in quaternion mode have known kinematic defects of their own (C03/C04 findings): Euler there
+    S.euler = go.below(3) == 0 || hasLineMobilizer(M);
     // forces
     Force::UniformGravity(M.forces, M.matter, Vec3(gf.range(-3, 3), -9.8, gf.range(-3, 3)));
     for (int i = 1; i < M.nb(); ++i) {
@@ -145,8 +188,11 @@ static void buildSys(Sys& S, uint64_t base, bool withPrescription, int& nConsWan
         Plan& P = S.plan[i];
         const int t = M.mtype[i];
         const int nu = nuOfType(t);
-        const bool posOk = S.euler || !quatCapable(t);      // position-level Motions only where nq == nu
+        const bool quatMob = !S.euler && quatCapable(t);           // nq = nu + 1 (unit quaternion)
+        // position-level Motions: where nq == nu and q = O(1) is regular, or (Custom only) the unit-quaternion spin class
+        const bool posOk = !lineType(t) && !singularAtZero(t);
         int r = gp.below(16);
+        if (i == S.loneParticle) r = gp.below(8);           // the lone particle is prescribed more often than not
         if (t == mWeld) r = gp.below(2) ? 15 : r;           // a Motion on a Weld is legal (no slots); mostly none
         if (r < 2) {                                        // Steady
             P.motion = kSteady; P.level = Motion::Velocity;
@@ -157,15 +203,19 @@ static void buildSys(Sys& S, uint64_t base, bool withPrescription, int& nConsWan
             if (gp.below(4) == 0 && nu > 0) { P.setOne = gp.below(nu); P.setOneVal = gp.range(-2, 2); }
         } else if (r < 5) {                                 // Sinusoid
             P.motion = kSinusoid; P.level = randLevel(gp);
-            if (P.level == Motion::Position && !posOk) P.level = Motion::Velocity;
+            if (P.level == Motion::Position && (!posOk || quatMob)) P.level = Motion::Velocity;   // (all q equal is no quaternion)
             P.a = gp.range(0.1, 1.0); P.w = gp.signedMag(0.3, 3.0); P.p = gp.range(-3.0, 3.0);
-        } else if (r < 7) {                                 // Custom
+        } else if (r < 8) {                                 // Custom
             P.motion = kCustom; P.level = randLevel(gp);
+            if (quatMob && gp.below(2) == 0) P.level = Motion::Position;      // guaranteed share of the nq != nu position-level paths
             if (P.level == Motion::Position && !posOk) P.level = Motion::Acceleration;
-            int mm = gp.below(6);
-            P.method = mm < 4 ? Motion::Prescribed : mm == 4 ? Motion::Zero : Motion::Discrete;
-            if (P.method == Motion::Discrete && P.level == Motion::Acceleration) P.method = Motion::Zero;   // Acc/Discrete has no source of udot
+            int mm = gp.below(8);
+            P.method = mm < 4 ? Motion::Prescribed : mm == 4 ? Motion::Zero : mm == 5 ? Motion::Discrete : mm == 6 ? Motion::Fast : Motion::Prescribed;
+            // Acceleration level: Discrete has no source of udot in the code, Fast is documented as not allowed
+            if (P.level == Motion::Acceleration && (P.method == Motion::Discrete || P.method == Motion::Fast)) P.method = Motion::Zero;
+            if (P.level == Motion::Position && quatMob && P.method == Motion::Zero) P.method = Motion::Prescribed;   // q = 0 is no quaternion
             P.poly.reset(new PolyMotion(gp, P.level, P.method));
+            P.poly->quat = (P.level == Motion::Position && quatMob);
         }
         if (P.motion != kNone && gp.below(6) == 0) P.disabledByDefault = true;
         int ld = gp.below(10);
@@ -177,6 +227,7 @@ static void buildSys(Sys& S, uint64_t base, bool withPrescription, int& nConsWan
             P.stateLock = 2; P.stateLockLevel = randLevel(gp);
             P.lockAtVec = gp.below(3) == 0 ? 1 : 0;
             P.zeroLockValues = gp.below(5) == 0;
+            if (P.stateLockLevel == Motion::Position && (quatMob || lineType(t) || singularAtZero(t))) P.zeroLockValues = false;
         } else if (so < 5) P.stateLock = 3;
         if (P.motion != kNone) { int tg = gp.below(6); P.toggle = tg == 0 ? 1 : tg == 1 ? 2 : 0; }
         if (!withPrescription) continue;
@@ -199,12 +250,13 @@ static void buildSys(Sys& S, uint64_t base, bool withPrescription, int& nConsWan
     M.state = M.system.realizeTopology();
     if (S.euler) M.matter.setUseEulerAngles(M.state, true);
     M.system.realizeModel(M.state);
+    S.defaultQ = M.state.getQ();
 }
 
 // ---------------------------------------------------------------------------------------------- expectations
 struct Expect {           // per body, in terms of the public API's documented behaviour
-    int lockLevel = -1;   // effective lock level (getLockLevel)
-    Vector lockVals;
+    int lockLevel = -1;   // effective lock level
+    Vector lockVals;      // what the harness knows it locked (NOT read back from the implementation)
     bool motionActive = false;
     Motion::Level level = Motion::NoLevel; Motion::Method method = Motion::NoMethod;
     // which of q / u / udot are governed, and the governed values
@@ -233,6 +285,7 @@ static void motionValues(const Plan& P, double t, int nq, int nu, Vector& pos, V
 
 // ---------------------------------------------------------------------------------------------- one full case
 static void putVec(vh::Line& L, const Vector& v) { for (int i = 0; i < v.size(); ++i) L.d(v[i]); }
+static void putV3(vh::Line& L, const Vec3& v) { for (int i = 0; i < 3; ++i) L.d(v[i]); }
 static std::string idTok(uint64_t seed, long k) { return std::to_string(seed) + " " + std::to_string(k); }
 
 static void treeCase(uint64_t seed, long k) {
@@ -254,34 +307,51 @@ static void treeCase(uint64_t seed, long k) {
     vh::I("chk").s(idTok(seed, k)).emit();
     vh::O("chk").i(1).emit();
     vh::D("chk." + cls + (A.euler ? ".euler" : ".quat"));
+    tagBodies(M);
+    if (A.loneParticle >= 0) vh::D("node.LoneParticle");
 
-    // ---- state-level operations
+    // ---- state-level operations; the harness keeps its own record of what every lock must hold
+    std::vector<int> wantLevel(nb, -1); std::vector<Vector> wantVals(nb);
     for (int i = 1; i < nb; ++i) {
         Plan& P = A.plan[i];
         const MobilizedBody& mb = M.bodies[i];
         const int mnq = mb.getNumQ(s), mnu = mb.getNumU(s);
+        const int q0 = mnq ? (int)mb.getFirstQIndex(s) : 0;
         if (P.motion != kNone) vh::D(std::string("plan.") + (P.motion == kSteady ? "steady" : P.motion == kSinusoid ? "sinusoid" : "custom") + "." +
-                                     levelName(P.level) + (P.motion == kCustom ? (P.method == Motion::Prescribed ? ".prescribed" : P.method == Motion::Zero ? ".zero" : ".discrete") : ""));
-        if (P.lockDefault != Motion::NoLevel) vh::D(std::string("plan.lockByDefault.") + levelName(P.lockDefault));
+                                     levelName(P.level) + (P.motion == kCustom ? std::string(".") + methodName(P.method) + (P.poly->quat ? ".quatSpin" : "") : ""));
+        if (P.lockDefault != Motion::NoLevel) {
+            vh::D(std::string("plan.lockByDefault.") + levelName(P.lockDefault));
+            wantLevel[i] = (int)P.lockDefault;
+            if (P.lockDefault == Motion::Position) { wantVals[i].resize(mnq); for (int j = 0; j < mnq; ++j) wantVals[i][j] = A.defaultQ[q0 + j]; }
+            else wantVals[i] = Vector(mnu, 0.0);
+            Vector got = mb.getLockValueAsVector(s);
+            vh::P("lock_value_recorded", "lock.byDefault.value_recorded", (int)mb.getLockLevel(s) == wantLevel[i] ? exactVecErr(got, wantVals[i]) : NAN, 0);
+        }
         if (P.toggle == 1 && P.motion != kNone) { P.handle.disable(s); vh::D("plan.disable"); }
         if (P.toggle == 2 && P.motion != kNone) { P.handle.enable(s); vh::D("plan.enable"); }
         if (P.setOne >= 0 && P.motion == kSteady && P.setOne < 6) {
             Motion::Steady::downcast(P.handle).setOneRate(s, MobilizerUIndex(P.setOne), P.setOneVal);
             P.rates[P.setOne] = P.setOneVal; vh::D("plan.steady.setOneRate");
         }
-        if (P.stateLock == 1) { mb.lock(s, P.stateLockLevel); vh::D(std::string("plan.lock.") + levelName(P.stateLockLevel)); }
-        else if (P.stateLock == 2 && mnq > 0) {
+        if (P.stateLock == 1) {
+            wantLevel[i] = (int)P.stateLockLevel;
+            wantVals[i] = P.stateLockLevel == Motion::Position ? mb.getQAsVector(s) : P.stateLockLevel == Motion::Velocity ? mb.getUAsVector(s) : Vector(mnu, 0.0);
+            mb.lock(s, P.stateLockLevel); vh::D(std::string("plan.lock.") + levelName(P.stateLockLevel));
+            Vector got = mb.getLockValueAsVector(s);
+            vh::P("lock_value_recorded", "lock.current.value_recorded", (int)mb.getLockLevel(s) == wantLevel[i] ? exactVecErr(got, wantVals[i]) : NAN, 0);
+        } else if (P.stateLock == 2 && mnq > 0) {
             const int n = P.stateLockLevel == Motion::Position ? mnq : mnu;
             Vector v(n);
             if (P.stateLockLevel == Motion::Position) {
                 v = mb.getQAsVector(s);
                 for (int j = 0; j < n; ++j) v[j] += gs.range(-0.3, 0.3);
-                if (mnq != mnu) {   // quaternion in the first four q's: keep it a unit quaternion
+                if (matter.isUsingQuaternion(s, mb.getMobilizedBodyIndex())) {   // keep the first four q's a unit quaternion
                     double nn = 0; for (int j = 0; j < 4; ++j) nn += v[j] * v[j];
                     nn = std::sqrt(nn); for (int j = 0; j < 4; ++j) v[j] /= nn;
                 }
+                if (singularAtZero(M.mtype[i])) { v[1] = 0.4 + std::abs(v[1]); if (M.mtype[i] == mSphericalCoords) v[2] = 0.4 + std::abs(v[2]); }
             } else for (int j = 0; j < n; ++j) v[j] = gs.range(-1.0, 1.0);
-            if (P.zeroLockValues && !(P.stateLockLevel == Motion::Position && mnq != mnu)) v = 0.0;
+            if (P.zeroLockValues) v = 0.0;
             std::string vc = "contig";
             if (n == 1 && gs.below(2) == 0) { mb.lockAt(s, v[0], P.stateLockLevel); vc = "scalar"; }
             else if (P.lockAtVec == 1 && n >= 2) {
@@ -293,97 +363,108 @@ static void treeCase(uint64_t seed, long k) {
             vh::D(std::string("plan.lockAt.") + levelName(P.stateLockLevel) + "." + vc + (P.zeroLockValues ? ".zero" : ""));
             // observation outside the property (MobilizedBody.h says lockAt at velocity level sets u in the state; the code
             // only records the value, u is set by the next prescribe): counted, not a predicate
-            if (P.stateLockLevel == Motion::Velocity && vc != "strided") {
+            if (P.stateLockLevel == Motion::Velocity) {
                 Vector un = mb.getUAsVector(s); bool same = true; for (int j = 0; j < n; ++j) same = same && bitEq(un[j], v[j]);
                 if (!same) vh::D("obs.lockAt_velocity_leaves_u_until_prescribe");
             }
             // the explicit value must be what the lock holds
             Vector got = mb.getLockValueAsVector(s);
-            double e = got.size() == n ? 0.0 : NAN;
-            for (int j = 0; j < n && !std::isnan(e); ++j) upd(e, bitEq(got[j], v[j]) ? 0.0 : std::max(absErr(got[j], v[j]), 1e-300));
+            const double e = exactVecErr(got, v);
             vh::P("lockAt_value_honoured", "lockAt." + vc + ".value_honoured", e, 0);
             // keep the rest of the case well scaled whatever happened above: re-issue with a contiguous Vector
             if (!(e <= 0)) mb.lockAt(s, v, P.stateLockLevel);
-        } else if (P.stateLock == 3) { mb.unlock(s); vh::D("plan.unlock"); }
+            wantLevel[i] = (int)P.stateLockLevel; wantVals[i] = v;
+        } else if (P.stateLock == 3) { mb.unlock(s); vh::D("plan.unlock"); wantLevel[i] = -1; wantVals[i] = Vector(); }
     }
 
-    // ---- expectations from the public API's documented behaviour
+    // ---- expectations from the public API's documented behaviour, at time tt
     std::vector<Expect> E(nb);
-    for (int i = 1; i < nb; ++i) {
-        const Plan& P = A.plan[i]; const MobilizedBody& mb = M.bodies[i]; Expect& X = E[i];
-        const int mnq = mb.getNumQ(s), mnu = mb.getNumU(s);
-        X.lockLevel = (int)mb.getLockLevel(s);
-        X.lockVals = mb.getLockValueAsVector(s);
-        if (mnq == 0) continue;
-        if (X.lockLevel == Motion::Position) { X.qGov = X.uGov = X.udGov = true; X.qV = X.lockVals; X.uV = Vector(mnu, 0.0); X.udV = Vector(mnu, 0.0); }
-        else if (X.lockLevel == Motion::Velocity) { X.uGov = X.udGov = true; X.uV = X.lockVals; X.udV = Vector(mnu, 0.0); }
-        else if (X.lockLevel == Motion::Acceleration) { X.udGov = true; X.udV = X.lockVals; }
-        else if (P.motion != kNone && !P.handle.isDisabled(s)) {
-            X.motionActive = true; X.level = P.level; X.method = P.method;
-            Vector v0, v1, v2; motionValues(P, t, mnq, mnu, v0, v1, v2);
-            X.arithmetic = (P.motion != kSteady);
-            if (P.method == Motion::Prescribed) {
-                if (P.level == Motion::Position) { X.qGov = true; X.qV = v0; X.qdotGov = true; X.qdV = v1; X.qddV = v2; }
-                else if (P.level == Motion::Velocity) { X.uGov = X.udGov = true; X.uV = v0; X.udV = v1; }
-                else { X.udGov = true; X.udV = v0; }
-            } else if (P.method == Motion::Zero) {
-                X.arithmetic = false;
-                if (P.level == Motion::Position) { X.qGov = X.uGov = X.udGov = true; X.qV = Vector(mnq, 0.0); X.uV = Vector(mnu, 0.0); X.udV = Vector(mnu, 0.0); }
-                else if (P.level == Motion::Velocity) { X.uGov = X.udGov = true; X.uV = Vector(mnu, 0.0); X.udV = Vector(mnu, 0.0); }
-                else { X.udGov = true; X.udV = Vector(mnu, 0.0); }
-            } else if (P.method == Motion::Discrete) {
-                X.arithmetic = false;
-                if (P.level == Motion::Position) { X.uGov = X.udGov = true; X.uV = Vector(mnu, 0.0); X.udV = Vector(mnu, 0.0); }
-                else if (P.level == Motion::Velocity) { X.udGov = true; X.udV = Vector(mnu, 0.0); }
+    auto expectAt = [&](double tt) {
+        for (int i = 1; i < nb; ++i) {
+            const Plan& P = A.plan[i]; const MobilizedBody& mb = M.bodies[i]; Expect X;
+            const int mnq = mb.getNumQ(s), mnu = mb.getNumU(s);
+            X.lockLevel = wantLevel[i];
+            X.lockVals = wantVals[i];
+            if (mnq != 0) {
+                if (X.lockLevel == Motion::Position) { X.qGov = X.uGov = X.udGov = true; X.qV = X.lockVals; X.uV = Vector(mnu, 0.0); X.udV = Vector(mnu, 0.0); }
+                else if (X.lockLevel == Motion::Velocity) { X.uGov = X.udGov = true; X.uV = X.lockVals; X.udV = Vector(mnu, 0.0); }
+                else if (X.lockLevel == Motion::Acceleration) { X.udGov = true; X.udV = X.lockVals; }
+                else if (P.motion != kNone && !P.handle.isDisabled(s)) {
+                    X.motionActive = true; X.level = P.level; X.method = P.method;
+                    Vector v0, v1, v2; motionValues(P, tt, mnq, mnu, v0, v1, v2);
+                    X.arithmetic = (P.motion != kSteady);
+                    if (P.method == Motion::Prescribed) {
+                        if (P.level == Motion::Position) { X.qGov = true; X.qV = v0; X.qdotGov = true; X.qdV = v1; X.qddV = v2; }
+                        else if (P.level == Motion::Velocity) { X.uGov = X.udGov = true; X.uV = v0; X.udV = v1; }
+                        else { X.udGov = true; X.udV = v0; }
+                    } else if (P.method == Motion::Zero) {
+                        X.arithmetic = false;
+                        if (P.level == Motion::Position) { X.qGov = X.uGov = X.udGov = true; X.qV = Vector(mnq, 0.0); X.uV = Vector(mnu, 0.0); X.udV = Vector(mnu, 0.0); }
+                        else if (P.level == Motion::Velocity) { X.uGov = X.udGov = true; X.uV = Vector(mnu, 0.0); X.udV = Vector(mnu, 0.0); }
+                        else { X.udGov = true; X.udV = Vector(mnu, 0.0); }
+                    } else if (P.method == Motion::Discrete || P.method == Motion::Fast) {   // the level itself is left alone, lower levels are zero
+                        X.arithmetic = false;
+                        if (P.level == Motion::Position) { X.uGov = X.udGov = true; X.uV = Vector(mnu, 0.0); X.udV = Vector(mnu, 0.0); }
+                        else if (P.level == Motion::Velocity) { X.udGov = true; X.udV = Vector(mnu, 0.0); }
+                    }
+                }
             }
+            E[i] = X;
         }
-    }
+    };
 
-    // ---- prescribe
-    const Vector qBefore = s.getQ(), uBefore = s.getU();
-    M.system.prescribe(s);
-    const Vector qAfter = s.getQ(), uAfter = s.getU();
-    M.system.realize(s, Stage::Acceleration);
-    const Vector udot = s.getUDot(), qdot = s.getQDot(), qdotdot = s.getQDotDot();
-
-    double eQ = 0, eU = 0, eUd = 0, eOther = 0, eQd = 0, eQdd = 0; bool anyQd = false;
-    for (int i = 1; i < nb; ++i) {
-        const MobilizedBody& mb = M.bodies[i]; const Expect& X = E[i];
-        const int mnq = mb.getNumQ(s), mnu = mb.getNumU(s);
-        const int q0 = mnq ? (int)mb.getFirstQIndex(s) : 0, u0 = mnu ? (int)mb.getFirstUIndex(s) : 0;
-        const double tol = X.arithmetic ? 1e-15 : 0.0;
-        for (int j = 0; j < mnq; ++j) {
-            if (X.qGov) { double e = absErr(qAfter[q0 + j], X.qV[j]); upd(eQ, e <= tol * std::max(1.0, std::abs(X.qV[j])) ? 0.0 : e); }
-            else upd(eOther, bitEq(qAfter[q0 + j], qBefore[q0 + j]) ? 0.0 : 1.0);
-        }
-        for (int j = 0; j < mnu; ++j) {
-            if (X.uGov) { double e = absErr(uAfter[u0 + j], X.uV[j]); upd(eU, e <= tol * std::max(1.0, std::abs(X.uV[j])) ? 0.0 : e); }
-            else if (!X.qdotGov) upd(eOther, bitEq(uAfter[u0 + j], uBefore[u0 + j]) ? 0.0 : 1.0);
-            if (X.udGov) { double e = absErr(udot[u0 + j], X.udV[j]); upd(eUd, e <= tol * std::max(1.0, std::abs(X.udV[j])) ? 0.0 : e); }
-        }
-        if (X.qdotGov) {
-            anyQd = true;
-            const bool idN = identityN(M.mtype[i]);
+    // ---- prescribe + realize + the exactness predicates (run at t, and again at a later instant)
+    Vector qBefore, uBefore, qAfter, uAfter, udot;
+    auto exactnessPass = [&](double tt) {
+        expectAt(tt);
+        qBefore = s.getQ(); uBefore = s.getU();
+        M.system.prescribe(s);
+        qAfter = s.getQ(); uAfter = s.getU();
+        M.system.realize(s, Stage::Acceleration);
+        udot = s.getUDot();
+        const Vector qdot = s.getQDot(), qdotdot = s.getQDotDot();
+        double eQ = 0, eU = 0, eUd = 0, eOther = 0, eQd = 0, eQdd = 0; bool anyQd = false;
+        for (int i = 1; i < nb; ++i) {
+            const MobilizedBody& mb = M.bodies[i]; const Expect& X = E[i];
+            const int mnq = mb.getNumQ(s), mnu = mb.getNumU(s);
+            const int q0 = mnq ? (int)mb.getFirstQIndex(s) : 0, u0 = mnu ? (int)mb.getFirstUIndex(s) : 0;
+            const double tol = X.arithmetic ? 1e-15 : 0.0;
             for (int j = 0; j < mnq; ++j) {
-                double e1 = absErr(qdot[q0 + j], X.qdV[j]), e2 = absErr(qdotdot[q0 + j], X.qddV[j]);
-                const double tl = idN ? 1e-15 : 1e-12;
-                upd(eQd, e1 <= tl * std::max(1.0, std::abs(X.qdV[j])) ? 0.0 : e1);
-                upd(eQdd, e2 <= (idN ? 1e-15 : 1e-10) * std::max(1.0, std::abs(X.qddV[j])) ? 0.0 : e2);
+                if (X.qGov) { double e = absErr(qAfter[q0 + j], X.qV[j]); upd(eQ, e <= tol * std::max(1.0, std::abs(X.qV[j])) ? 0.0 : e); }
+                else upd(eOther, bitEq(qAfter[q0 + j], qBefore[q0 + j]) ? 0.0 : 1.0);
+            }
+            for (int j = 0; j < mnu; ++j) {
+                if (X.uGov) { double e = absErr(uAfter[u0 + j], X.uV[j]); upd(eU, e <= tol * std::max(1.0, std::abs(X.uV[j])) ? 0.0 : e); }
+                else if (!X.qdotGov) upd(eOther, bitEq(uAfter[u0 + j], uBefore[u0 + j]) ? 0.0 : 1.0);
+                if (X.udGov) { double e = absErr(udot[u0 + j], X.udV[j]); upd(eUd, e <= tol * std::max(1.0, std::abs(X.udV[j])) ? 0.0 : e); }
+            }
+            if (X.qdotGov) {
+                anyQd = true;
+                // qdot = N u and qdotdot = N udot + NDot u go through N * N^-1: rounding of a well conditioned 3x3/4x3 product
+                for (int j = 0; j < mnq; ++j) {
+                    double e1 = absErr(qdot[q0 + j], X.qdV[j]), e2 = absErr(qdotdot[q0 + j], X.qddV[j]);
+                    upd(eQd, e1 <= 1e-12 * std::max(1.0, std::abs(X.qdV[j])) ? 0.0 : e1);
+                    upd(eQdd, e2 <= 1e-10 * std::max(1.0, std::abs(X.qddV[j])) ? 0.0 : e2);
+                }
             }
         }
-    }
-    vh::P("prescribed_q_exact", "prescribe." + cls + ".q_exact", eQ, 0);
-    vh::P("prescribed_u_exact", "prescribe." + cls + ".u_exact", eU, 0);
-    vh::P("others_untouched", "prescribe." + cls + ".others_untouched", eOther, 0);
-    vh::P("known_udot_exact", "realize." + cls + ".udot_exact", eUd, 0);
-    if (anyQd) { vh::P("qdot_matches_motion", "realize." + cls + ".qdot_matches", eQd, 0); vh::P("qdotdot_matches_motion", "realize." + cls + ".qdotdot_matches", eQdd, 0); }
-    {
+        vh::P("prescribed_q_exact", "prescribe." + cls + ".q_exact", eQ, 0);
+        vh::P("prescribed_u_exact", "prescribe." + cls + ".u_exact", eU, 0);
+        vh::P("others_untouched", "prescribe." + cls + ".others_untouched", eOther, 0);
+        vh::P("known_udot_exact", "realize." + cls + ".udot_exact", eUd, 0);
+        if (anyQd) { vh::P("qdot_matches_motion", "realize." + cls + ".qdot_matches", eQd, 0); vh::P("qdotdot_matches_motion", "realize." + cls + ".qdotdot_matches", eQdd, 0); }
         double e = 0;
         Vector ep = matter.calcMotionErrors(s, Stage::Position), ev = matter.calcMotionErrors(s, Stage::Velocity), ea = matter.calcMotionErrors(s, Stage::Acceleration);
         for (int i = 0; i < ep.size(); ++i) upd(e, std::abs(ep[i]));
         for (int i = 0; i < ev.size(); ++i) upd(e, std::abs(ev[i]));
         for (int i = 0; i < ea.size(); ++i) upd(e, std::abs(ea[i]));
         vh::P("motion_errors_zero", "motionErrors." + cls + ".zero", e, 0);
+    };
+    exactnessPass(t);
+    for (int i = 1; i < nb; ++i) {   // node classes that run a prescribed (known-udot) branch
+        const Motion::Method um = M.bodies[i].getUDotMotionMethod(s);
+        if (M.bodies[i].getNumU(s) && um != Motion::Free)
+            vh::D(std::string("known.") + (i == A.loneParticle ? "LoneParticle" : mobName(M.mtype[i])) + (M.reversed[i] ? ".rev" : "") + (um == Motion::Zero ? ".zero" : ".prescribed"));
     }
 
     // ---- quantities for the model records (taken now, before the state is modified below)
@@ -394,18 +475,25 @@ static void treeCase(uint64_t seed, long k) {
     const double power = matter.calcMotionPower(s);
     Matrix MM; matter.calcM(s, MM);
     const Vector lambda = s.getMultipliers();
-    Vector resid0; double fscale = 0;
-    {
-        const Vector mobF = M.system.getMobilityForces(s, Stage::Dynamics);
-        const Vector_<SpatialVec> bodyF = M.system.getRigidBodyForces(s, Stage::Dynamics);
-        matter.calcResidualForce(s, mobF, bodyF, Vector(nu, 0.0), lambda, resid0);
-        Vector residNoLambda; matter.calcResidualForceIgnoringConstraints(s, mobF, bodyF, Vector(nu, 0.0), residNoLambda);
-        fscale = std::max(maxAbs(resid0), maxAbs(residNoLambda));   // size of the terms that make up f (before cancellation)
-    }
+    const Vector mobF = M.system.getMobilityForces(s, Stage::Dynamics);
+    const Vector_<SpatialVec> bodyF = M.system.getRigidBodyForces(s, Stage::Dynamics);
+    Vector resid0, residNoLambda; double fscale = 0;
+    matter.calcResidualForce(s, mobF, bodyF, Vector(nu, 0.0), lambda, resid0);
+    matter.calcResidualForceIgnoringConstraints(s, mobF, bodyF, Vector(nu, 0.0), residNoLambda);
+    fscale = std::max(maxAbs(resid0), maxAbs(residNoLambda));   // size of the terms that make up f (before cancellation)
     const double udotErrNorm = s.getUDotErr().size() ? maxAbs(s.getUDotErr()) : 0.0;
+    // ---- equation of motion with the reported tau, for EVERY case:  M udot + tau + ~G lambda + f_inertial - f_applied = 0
+    if (nu > 0) {
+        Vector r; matter.calcResidualForce(s, mobF, bodyF, udot, lambda, r);
+        Vector Mud; matter.multiplyByM(s, udot, Mud);
+        double sc = 1; upd(sc, fscale); upd(sc, maxAbs(Mud)); upd(sc, maxAbs(tauFull));
+        Vector eom = r + tauFull;
+        vh::P("eom_with_reported_tau", "multipliers." + cls + ".eom_residual", maxAbs(eom) / sc, 1e-9);
+    }
     // a constraint that cannot move anything (e.g. between two bodies welded together) has G = 0: its multipliers are
     // noise/0 (C08's business, not C10's); such systems are excluded from the force-equivalence records
     bool wellPosed = lambda.size() == 0 || maxAbs(lambda) <= 1e6;
+    double condG = 1;
     if (lambda.size()) {   // rank of the constraint Jacobian (public calcG + SVD)
         Matrix G; matter.calcG(s, G);
         if (G.nrow() > 0 && G.ncol() > 0) {
@@ -413,42 +501,26 @@ static void treeCase(uint64_t seed, long k) {
             double smax = 0, smin = 1e300; bool nan = false;
             for (int i = 0; i < sv.size(); ++i) { if (std::isnan(sv[i])) nan = true; smax = std::max(smax, sv[i]); smin = std::min(smin, sv[i]); }
             if (nan || G.nrow() > G.ncol() || !(smin >= 1e-6 * std::max(1.0, smax))) wellPosed = false;
+            else condG = std::max(1.0, smax) / smin;
         } else if (G.nrow() > 0) wellPosed = false;
     }
+    double condM = 1;
+    if (nu > 0) {
+        Vector sv; FactorSVD svd(MM); svd.getSingularValues(sv);
+        double smax = 0, smin = 1e300; for (int i = 0; i < sv.size(); ++i) { smax = std::max(smax, sv[i]); smin = std::min(smin, sv[i]); }
+        condM = smin > 0 ? smax / smin : 1e300;
+    }
     if (std::getenv("C10_DEBUG")) {
-        std::fprintf(stderr, "case %ld euler=%d nq=%d nu=%d t=%g udotErr=%g bodies:", k, (int)A.euler, nq, nu, t, udotErrNorm);
-        for (int i = 1; i < nb; ++i) std::fprintf(stderr, " %d:%s<-%d[lock=%d motion=%d lvl=%d mth=%d act=%d]", i, mobName(M.mtype[i]), M.parent[i], E[i].lockLevel, A.plan[i].motion, (int)A.plan[i].level, (int)A.plan[i].method, (int)E[i].motionActive);
+        std::fprintf(stderr, "case %ld euler=%d nq=%d nu=%d t=%g udotErr=%g condM=%g condG=%g bodies:", k, (int)A.euler, nq, nu, t, udotErrNorm, condM, condG);
+        for (int i = 1; i < nb; ++i) std::fprintf(stderr, " %d:%s%s<-%d[lock=%d motion=%d lvl=%d mth=%d act=%d]", i, mobName(M.mtype[i]), M.reversed[i] ? ".rev" : "", M.parent[i], E[i].lockLevel, A.plan[i].motion, (int)A.plan[i].level, (int)A.plan[i].method, (int)E[i].motionActive);
         for (auto& ci : A.cons) { std::fprintf(stderr, " | %s cb:", consName(ci.type)); for (int b : ci.cbodies) std::fprintf(stderr, " %d", b); std::fprintf(stderr, " cm:"); for (int b : ci.cmobs) std::fprintf(stderr, " %d", b); }
-        Vector eom = MM * udot + tauFull + resid0;
-        std::fprintf(stderr, "\n  |M udot + tau + resid(0,lambda)| = %g  lambda:", maxAbs(eom));
+        std::fprintf(stderr, "\n  lambda:");
         for (int i = 0; i < lambda.size(); ++i) std::fprintf(stderr, " %g", lambda[i]);
         std::fprintf(stderr, "  udotErr:"); for (int i = 0; i < s.getUDotErr().size(); ++i) std::fprintf(stderr, " %g", s.getUDotErr()[i]);
         std::fprintf(stderr, "\n");
     }
     std::vector<int> methods;
     for (int i = 1; i < nb; ++i) { methods.push_back((int)M.bodies[i].getQMotionMethod(s)); methods.push_back((int)M.bodies[i].getUMotionMethod(s)); methods.push_back((int)M.bodies[i].getUDotMotionMethod(s)); }
-    // pool values the Motion delivers, mapped to u-space where the code does so
-    std::vector<Vector> mPos(nb), mVel(nb), mAcc(nb);
-    for (int i = 1; i < nb; ++i) {
-        const MobilizedBody& mb = M.bodies[i]; const Expect& X = E[i];
-        const int mnq = mb.getNumQ(s), mnu = mb.getNumU(s);
-        mPos[i] = Vector(mnq, 0.0); mVel[i] = Vector(mnu, 0.0); mAcc[i] = Vector(mnu, 0.0);
-        if (!X.motionActive || X.method != Motion::Prescribed || mnq == 0) continue;
-        if (X.level == Motion::Position) {
-            mPos[i] = X.qV;
-            if (identityN(M.mtype[i])) { mVel[i] = X.qdV; mAcc[i] = X.qddV; }
-            else {   // u = N^-1 qdot ;  udot = N^-1 (qdotdot - NDot u)   via the public operators
-                const int q0 = (int)mb.getFirstQIndex(s), u0 = (int)mb.getFirstUIndex(s);
-                Vector qd(nq, 0.0), qdd(nq, 0.0), out, ndu;
-                for (int j = 0; j < mnq; ++j) { qd[q0 + j] = X.qdV[j]; qdd[q0 + j] = X.qddV[j]; }
-                matter.multiplyByNInv(s, false, qd, out); for (int j = 0; j < mnu; ++j) mVel[i][j] = out[u0 + j];
-                matter.multiplyByNDot(s, false, s.getU(), ndu);
-                Vector rhs(nq, 0.0); for (int j = 0; j < mnq; ++j) rhs[q0 + j] = qdd[q0 + j] - ndu[q0 + j];
-                matter.multiplyByNInv(s, false, rhs, out); for (int j = 0; j < mnu; ++j) mAcc[i][j] = out[u0 + j];
-            }
-        } else if (X.level == Motion::Velocity) { mVel[i] = X.uV; mAcc[i] = X.udV; }
-        else mAcc[i] = X.udV;
-    }
 
     // ---- metamorphic runs
     double eMeta = NAN, eFree = NAN; bool metaRun = false;
@@ -486,21 +558,37 @@ static void treeCase(uint64_t seed, long k) {
             if (!(errB <= 1e-8)) { metaRun = false; vh::D("meta.skipped.unprescribedInconsistent"); }
         } else vh::D("meta.skipped.constraintsConflictWithPrescription");
     }
-    if (metaRun) vh::P("tau_as_applied_force", "multipliers." + cls + ".as_applied_force", eMeta, 1e-9);
+    // bound scales with the conditioning of the two linear solves involved (mass matrix, constraint Jacobian)
+    if (metaRun) vh::P("tau_as_applied_force", "multipliers." + cls + ".as_applied_force", eMeta, std::min(1e-6, std::max(1e-9, 1e-13 * condM * condG)));
     if (known.empty()) vh::D("chk.nothingPrescribed");
 
-    // ---- model record: partition, pools, scatter
+    // ---- model record: partition, pools (callback -> pool choice and u = N^-1 qdot are the MODEL's job), scatter
     {
+        Vector ndu; matter.multiplyByNDot(s, false, s.getU(), ndu);
         vh::Line L = vh::I("presc"); L.s(idTok(seed, k)).i(nb - 1);
         for (int i = 1; i < nb; ++i) {
             const MobilizedBody& mb = M.bodies[i]; const Expect& X = E[i]; const Plan& P = A.plan[i];
             const int mnq = mb.getNumQ(s), mnu = mb.getNumU(s);
-            L.i(mnq ? (int)mb.getFirstQIndex(s) : 0).i(mnu ? (int)mb.getFirstUIndex(s) : 0).i(mnq).i(mnu).i(X.lockLevel);
+            const int q0 = mnq ? (int)mb.getFirstQIndex(s) : 0, u0 = mnu ? (int)mb.getFirstUIndex(s) : 0;
+            L.i(q0).i(u0).i(mnq).i(mnu).i(X.lockLevel);
             Vector lq(mnq, 0.0), lu(mnu, 0.0);
             if (X.lockLevel == Motion::Position) lq = X.lockVals; else if (X.lockLevel != Motion::NoLevel) lu = X.lockVals;
             putVec(L, lq); putVec(L, lu);
             L.i(P.motion != kNone).i(P.motion != kNone && P.handle.isDisabled(s)).i((int)P.level).i((int)P.method);
-            putVec(L, mPos[i]); putVec(L, mVel[i]); putVec(L, mAcc[i]);
+            // raw callback results at this state: Position / PositionDot / PositionDotDot (nq), Velocity / VelocityDot / Acceleration (nu)
+            Vector cb[6] = {Vector(mnq, 0.0), Vector(mnq, 0.0), Vector(mnq, 0.0), Vector(mnu, 0.0), Vector(mnu, 0.0), Vector(mnu, 0.0)};
+            if (P.motion != kNone && mnq > 0) {
+                Vector v0, v1, v2; motionValues(P, t, mnq, mnu, v0, v1, v2);
+                if (P.level == Motion::Position) { cb[0] = v0; cb[1] = v1; cb[2] = v2; }
+                else if (P.level == Motion::Velocity) { cb[3] = v0; cb[4] = v1; }
+                else cb[5] = v0;
+            }
+            for (int c = 0; c < 6; ++c) putVec(L, cb[c]);
+            // this mobilizer's block of N^-1 (nu x nq, row major; column j = N^-1 e_j through the public operator) and NDot*u
+            Matrix NI(mnu, mnq);
+            for (int j = 0; j < mnq; ++j) { Vector e(nq, 0.0), out; e[q0 + j] = 1; matter.multiplyByNInv(s, false, e, out); for (int r = 0; r < mnu; ++r) NI(r, j) = out[u0 + r]; }
+            for (int r = 0; r < mnu; ++r) for (int j = 0; j < mnq; ++j) L.d(NI(r, j));
+            for (int j = 0; j < mnq; ++j) L.d(ndu[q0 + j]);
         }
         L.i(nq); putVec(L, qBefore); L.i(nu); putVec(L, uBefore);
         L.emit();
@@ -514,6 +602,36 @@ static void treeCase(uint64_t seed, long k) {
         vh::Line o8 = vh::O("presc"); o8.s("udotKnown"); for (UIndex x : known) o8.d(udot[x]); o8.emit();
         vh::D(std::string("presc.") + cls);
     }
+    // ---- model record: the two ABA passes with prescribed nodes on exported tree data
+    if (nu > 0 && (lambda.size() == 0 || maxAbs(lambda) <= 1e6)) {
+        // total forces seen by the tree passes: applied minus constraint forces
+        Vector_<SpatialVec> cF(nb); Vector cf(nu); cF = SpatialVec(Vec3(0), Vec3(0)); cf = 0.0;
+        if (lambda.size()) matter.findConstraintForces(s, cF, cf);
+        vh::Line L = vh::I("aba"); L.s(idTok(seed, k)).i(0).i(nb - 1).i(nu);
+        for (int i = 1; i < nb; ++i) {
+            const MobilizedBody& mb = M.bodies[i]; const MobilizedBody& par = mb.getParentMobilizedBody();
+            const int d = mb.getNumU(s);
+            L.i((int)mb.getMobilizedBodyIndex()).i((int)par.getMobilizedBodyIndex()).i(d).i(d ? (int)mb.getFirstUIndex(s) : 0);
+            putV3(L, mb.getBodyOriginLocation(s) - par.getBodyOriginLocation(s));
+            const SpatialInertia& SI = mb.getBodySpatialInertiaInGround(s);
+            L.d(SI.getMass()); putV3(L, SI.getMassCenter());
+            const SymMat33& G = SI.getUnitInertia().asSymMat33();
+            L.d(G(0, 0)).d(G(1, 1)).d(G(2, 2)).d(G(1, 0)).d(G(2, 0)).d(G(2, 1));
+            for (int c = 0; c < d; ++c) { const SpatialVec h = mb.getHCol(s, MobilizerUIndex(c)); putV3(L, h[0]); putV3(L, h[1]); }
+        }
+        for (int i = 1; i < nb; ++i) L.i(M.bodies[i].getUDotMotionMethod(s) != Motion::Free ? 1 : 0);     // isUDotKnown
+        for (int i = 1; i < nb; ++i) { const SpatialVec& a = matter.getMobilizerCoriolisAcceleration(s, MobilizedBodyIndex(i)); putV3(L, a[0]); putV3(L, a[1]); }
+        for (int i = 1; i < nb; ++i) { const SpatialVec& b = matter.getGyroscopicForce(s, MobilizedBodyIndex(i)); putV3(L, b[0]); putV3(L, b[1]); }
+        for (int i = 0; i < nb; ++i) { const SpatialVec F = bodyF[i] - cF[i]; putV3(L, F[0]); putV3(L, F[1]); }
+        for (int i = 0; i < nu; ++i) L.d(mobF[i] - cf[i]);
+        { Vector udp(nu, 0.0); for (UIndex x : known) udp[x] = udot[x]; putVec(L, udp); }   // prescribed accelerations at the known slots
+        L.d(fscale);
+        L.emit();
+        std::printf("T 1e-8 1e-10\n");
+        vh::Line o = vh::O("aba"); putVec(o, udot); putVec(o, tau); o.d(fscale); o.emit();
+        vh::D(std::string("aba.") + cls + (known.empty() ? ".nothingKnown" : freeUDot.empty() ? ".allKnown" : ".mixed"));
+    }
+
     // ---- model record: block elimination
     if (nu > 0 && !wellPosed) vh::D("elim.skipped.degenerateConstraints");
     if (nu > 0 && wellPosed) {
@@ -532,6 +650,16 @@ static void treeCase(uint64_t seed, long k) {
         // last number: magnitude of the force terms making up f (comparison scale; the model echoes this input)
         vh::Line o1 = vh::O("elim"); putVec(o1, udot); putVec(o1, tau); putVec(o1, tauFull); o1.d(power).d(fscale); o1.emit();
         vh::D(std::string("elim.") + cls + (known.empty() ? ".nothingKnown" : freeUDot.empty() ? ".allKnown" : ".mixed"));
+    }
+
+    // ---- a second instant: advance time, prescribe again, realize again; the same exactness predicates must hold
+    {
+        const double t2 = t + gs.range(0.05, 1.0);
+        s.updTime() = t2;
+        vh::I("chk").s(idTok(seed, k)).i(2).emit();
+        vh::O("chk").i(1).emit();
+        vh::D("chk.secondInstant");
+        exactnessPass(t2);
     }
 }
 
